@@ -381,6 +381,22 @@ def real_fs(ck, work, quick):
     if res != ["dir", "tmp2"] or sorted(os.listdir(dg)) != ["tmp1", "tmp1.bak", "tmp10", "tmp2", "tmp3", "tmp4"]:
         ck.violation(f"real file system with tmp1/ tmp3/ tmp4(file) tmp10/ tmp1.bak/: got {res}, expected tmp2; listing {sorted(os.listdir(dg))}",
                      {"case": "gaps2", "got": res})
+    # names that are NOT tmpN but look like it - another letter case, a leading zero, a trailing blank or dot, a suffix, a
+    # full-width digit: they take no number away (the file system here is case-sensitive); exact names do
+    dl = os.path.join(work, "lookalikes")
+    os.mkdir(dl)
+    for nm in ("TMP1", "Tmp2", "tmp01", "tmp1 ", "tmp1.", "tmp1.txt", "tmp\uff11", "xtmp1", "tmp-1", "tmp"):
+        os.mkdir(os.path.join(dl, nm))
+        with open(os.path.join(dl, nm, "keep"), "w") as f:
+            f.write("k")
+    before_ = sorted(os.listdir(dl))
+    res = child([dl, "plain"])
+    ck.count("realfs")
+    ck.nontrivial(("realfs", "lookalikes"))
+    if res != ["dir", "tmp1"] or sorted(os.listdir(dl)) != sorted(before_ + ["tmp1"]) or any(
+            os.listdir(os.path.join(dl, nm)) != ["keep"] for nm in before_):
+        ck.violation(f"real file system holding {before_} (none of them is 'tmp1'): got {res}, expected the new directory tmp1; "
+                     f"listing now {sorted(os.listdir(dl))}", {"case": "lookalikes", "got": res})
     # K names taken (tmp1..tmpK, files and directories alternating) for K around every power of two and ten: the run
     # creates tmp(K+1) and touches nothing that was there (probe caps, give-up counters)
     from boundaries import around, with_mined
